@@ -9,19 +9,28 @@ ROOT = os.path.dirname(os.path.dirname(os.path.abspath(__file__)))
 LINE = re.compile(r'approving block\s+(\{.*\})')
 
 
-def gen_config(rng, thorough):
+def gen_config(rng, thorough, cls=None):
+    """one configuration; cls forces a class: 'drain' = the pools run dry (empty blocks must keep the chain going),
+    'empty' = no transactions at all"""
     count = rng.choice([1, 2, 3, 4, 4, 5, 6, 7, 7])
     watchers = rng.choice([0, 0, 1, 2, 3])
     blocked = -1  # the property is about fault-free runs: nobody is blocked
     txblock = rng.choice([0, 1, 1, 2, 3])
+    txcount = rng.choice([2000, 2000, 100, 3, 1, 0])
+    if cls == "drain":
+        txblock, txcount = rng.choice([1, 2, 3]), rng.choice([1, 2, 3])
+    elif cls == "empty":
+        txblock, txcount = rng.choice([0, 1]), (0 if rng.random() < 0.5 else 2000)
+        if txblock == 1:
+            txcount = 0
     procs = rng.choice([1, 2, 4, 16])
     dur = rng.choice([17, 19, 22] if not thorough else [17, 22, 25, 31])
-    return {"count": count, "watchers": watchers, "blocked": blocked, "txblock": txblock, "gomaxprocs": procs, "duration": dur}
+    return {"count": count, "watchers": watchers, "blocked": blocked, "txblock": txblock, "txcount": txcount, "gomaxprocs": procs, "duration": dur}
 
 
 def run_one(binary, cfg, use_netns):
     args = [binary, "-count", str(cfg["count"]), "-watchers", str(cfg["watchers"]), "-blocked", str(cfg["blocked"]),
-            "-txblock", str(cfg["txblock"]), "-txcount", "2000", "-duration", "%ds" % cfg["duration"]]
+            "-txblock", str(cfg["txblock"]), "-txcount", str(cfg.get("txcount", 2000)), "-duration", "%ds" % cfg["duration"]]
     if use_netns:
         args = ["unshare", "-n", "sh", "-c", "ip link set lo up 2>/dev/null; exec \"$@\"", "sh"] + args
     env = dict(os.environ)
@@ -90,8 +99,12 @@ def main(prop, spec, argv, seed, chk):
             rng = random.Random(seed * 7919 + 17)
             n = spec[tier]["runs"]
             runs = [gen_config(rng, tier == "thorough") for _ in range(n)]
-            # always include the documented default shape (scaled down) once
-            runs[0] = {"count": 4, "watchers": 1, "blocked": -1, "txblock": 1, "gomaxprocs": 16, "duration": runs[0]["duration"]}
+            # always include the documented default shape (scaled down) once, one run whose pools run dry
+            # and (thorough) one without any transactions
+            runs[0] = {"count": 4, "watchers": 1, "blocked": -1, "txblock": 1, "txcount": 2000, "gomaxprocs": 16, "duration": runs[0]["duration"]}
+            runs[1] = gen_config(rng, tier == "thorough", "drain")
+            if n > 3:
+                runs[2] = gen_config(rng, tier == "thorough", "empty")
         netns = subprocess.run(["unshare", "-n", "true"], stdout=subprocess.DEVNULL, stderr=subprocess.DEVNULL).returncode == 0
         results = []
         viols = []
